@@ -1,1 +1,52 @@
-From CMinx Require Import Base.Str.
+(* Properties/C19.v -- cminx_gen_rst() in CMake is equivalent to the command line.
+   Only theorem statements; proofs are in Proofs/CMakeFacts.v.  gen_rst_def is Gen/CMinxCMake.v,
+   translated from the CURRENT cmake/cminx.cmake on every run and executed by the mini CMake
+   evaluator Model/CMakeLang.v: a change to the function body changes the term the theorem is
+   about.  Partial: real CMake's evaluator is validated against (cmake -P), not verified. *)
+From Coq Require Import String List ZArith.
+From CMinx Require Import Base.Str Model.CMakeLang Gen.CMinxCMake Proofs.CMakeFacts.
+Import ListNotations.
+
+(* exactly one process: the executable, the input, -r iff the input is a directory, the extra
+   arguments verbatim and in order, -o <output>; a failure of it is fatal *)
+Theorem C19_gen_rst_launch :
+  forall isdir globals exe dir out extra,
+    lookup_var globals (s"CMINX_EXECUTABLE") = exe ->
+    args_ok exe dir out extra = true ->
+    call isdir gen_rst_def globals (dir :: out :: extra)
+    = [ (exe :: dir :: (if isdir dir then [s"-r"] else []) ++ extra ++ [s"-o"; out], true) ].
+Proof. exact gen_rst_launch. Qed.
+Print Assumptions C19_gen_rst_launch.
+
+Theorem C19_failure_is_fatal :
+  forall isdir globals exe dir out extra,
+    lookup_var globals (s"CMINX_EXECUTABLE") = exe ->
+    args_ok exe dir out extra = true ->
+    map snd (call isdir gen_rst_def globals (dir :: out :: extra)) = [true]
+    /\ (forall argv fatal code,
+          In (argv, fatal) (call isdir gen_rst_def globals (dir :: out :: extra)) ->
+          after_launch fatal code = if (code =? 0)%Z then CMDone else CMFatal)
+    /\ (forall code, code <> 0%Z -> after_launch true code = CMFatal)
+    /\ after_launch true 0 = CMDone.
+Proof. exact gen_rst_failure_is_fatal. Qed.
+Print Assumptions C19_failure_is_fatal.
+
+(* CMake list semantics behind 'verbatim': plain arguments survive a list variable *)
+Theorem C19_split_list_join :
+  forall extra, forallb arg_plain extra = true -> split_list (join semi extra) = extra.
+Proof. exact split_list_join. Qed.
+Print Assumptions C19_split_list_join.
+
+Theorem C19_argc_roundtrip : forall n, parse_num (dec_of_nat n) = Some (N.of_nat n).
+Proof. exact parse_num_dec_of_nat. Qed.
+Print Assumptions C19_argc_roundtrip.
+
+(* documented limits: the hypothesis args_ok cannot be dropped *)
+Theorem C19_list_flattening_refuted :
+  exists extra,
+    forallb arg_plain extra = false
+    /\ forallb not_kw (s"cminx" :: s"/src" :: s"/out" :: extra) = true
+    /\ call ex_isd gen_rst_def ex_globals (s"/src" :: s"/out" :: extra)
+       <> [(expected_argv ex_isd (s"cminx") (s"/src") (s"/out") extra, true)].
+Proof. exact gen_rst_list_flattening_refuted. Qed.
+Print Assumptions C19_list_flattening_refuted.
